@@ -39,7 +39,7 @@ def judge(names, s, a):
     special = [(y, x) for y, row in enumerate(s[0]) for x, o in enumerate(row) if o[0] in ('Door', 'Box')]
     for choices, res in outs:
         if dyn.is_exc(res):
-            if a == 'ACTUATE' or names in (('actuate_door',), ('actuate_box',)):
+            if dyn.blamed(names, ('actuate_door', 'actuate_box'), s, a):
                 return len(outs), True, f'{"+".join(names)} on {a} raised {res[1]}: {res[2]}', sig
             continue
         for p in special:
@@ -120,7 +120,7 @@ def run(rep, tier, seed):
         names, init_limit, max_states, gcap = ['keydoor.5x5', 'keydoor.7x7'], 300, 40000, 6
     else:
         names, init_limit, max_states, gcap = ['keydoor.5x5', 'keydoor.7x7', 'keydoor.9x9'], 8000, 600000, None
-    rs, rt = dyn.run_reach(rep, names, init_limit, max_states, make_hooks, replay, 'door_protocol', group_cap=gcap)
+    rs, rt = dyn.run_reach(rep, names, init_limit, max_states, make_hooks, replay, 'door_protocol', group_cap=gcap, lineages=2 if tier == 'quick' else 3)
     rep.assume('the history invariant "a locked door is never found open unless a matching key was used" is checked '
                'inductively: every edge of the reachable graph that changes a door status must be a faced ACTUATE with '
                'a matching key (or a closed door), starting from reset states whose door is LOCKED')
